@@ -189,11 +189,15 @@ SAMPLINGS = [("replacement", None), ("replacement", "by_label"), ("replacement",
              ("dynamic", None), ("dynamic", "by_label"), ("dynamic", "by_group")]
 
 
-def sampling_ok(d, method, strat):
-    """single_pass needs every sampled (group, class) stratum non-empty."""
+def sampling_ok(d, method, strat, names=None):
+    """single_pass needs every sampled (group, class) stratum non-empty; by_group iterates over
+    the *listed* groups, which after an earlier sampling step may include a group without
+    members."""
     if not d["pos"] or not d["neg"]:
-        return method != "single_pass" and strat == "by_group" and False
+        return False
     if method == "single_pass" and strat == "by_group":
+        if names is not None and (set(names) != set(d["pg"]) or set(names) != set(d["ng"])):
+            return False
         return set(d["pg"]) == set(d["ng"])
     return True
 
@@ -302,7 +306,7 @@ def check_history(case):
         elif op == "sample":
             dd = dict(pos=g.pos.tolist(), neg=g.neg.tolist(),
                       pg=[_norm(x) for x in g.pos_groups.tolist()], ng=[_norm(x) for x in g.neg_groups.tolist()])
-            if not sampling_ok(dd, st_["method"], st_["strat"]):
+            if not sampling_ok(dd, st_["method"], st_["strat"], [_norm(x) for x in names]):
                 continue
             gc = Counter()
             for (s_, lab, cl), c in cur_src.items():
